@@ -83,6 +83,8 @@ def body_prune_att(cube, **kw):
             att.compromise(nodes[i])
     if kw['ep']:
         att.entry_points = list(att.reached_attack_steps)
+    elif kw.get('ep2', False):      # optional: recorded witnesses predate this parameter
+        att.entry_points = list(nodes)          # entry points the attacker does not (or no longer) hold
     return _prune_and_check(g, nodes, types, flags, seen_ids, seen_names)
 
 
@@ -108,13 +110,14 @@ def queries(tier):
         qs.append(mk('prune4', 4, ['or', 'defense'], 1, 1500))
     n = 3
     params = [I('t%d' % i, 0, 2) for i in range(n)] + [B('v%d' % i) for i in range(n)] + \
-             [B('c%d' % i) for i in range(n)] + [B('r%d' % i) for i in range(n)] + [B('ep')]
+             [B('c%d' % i) for i in range(n)] + [B('r%d' % i) for i in range(n)] + [B('ep'), B('ep2')]
     wit = {p.name: (0 if p.typ == 'int' else False) for p in params}
     wit.update({'r0': True, 'r1': True, 'ep': True})
+    pre_att = ['not (ep and ep2)']
     qs.append(Query(name='prune_att', body=body_prune_att, params=params, timeout=600,
-                    witnesses=[({}, wit)], split=['t0', 't1', 't2'],
+                    witnesses=[({}, wit)], split=['t0', 't1', 't2'], pre=pre_att,
                     bound='3 isolated nodes, symbolic type picks over %s, symbolic flags, one attacker with every '
-                          'reached set, entry points = reached or empty' % T3))
+                          'reached set, entry points = reached, all nodes or empty' % T3))
     return qs
 
 
